@@ -92,6 +92,60 @@ func walkCase(n, seed, limit int64) obs {
 	return o
 }
 
+// interleavedCase: a walk that is suspended after `before` numbers while `others` further iterators (sizes of the same
+// table row and of other rows) are constructed and stepped -- as a scan does: one address walk per port, port and
+// address walks of the same group size alive at the same time -- and then continued to its end.
+func interleavedCase(n, seed int64, before, others int) obs {
+	o := obs{N: n, Seed: seed, K: others, Class: "interleaved", Walk: true}
+	rand.Seed(seed)
+	it, kind := newIter(n)
+	if kind != "" {
+		o.Err = kind
+		return o
+	}
+	o.P, o.G, o.StartI = it.P().String(), it.G().String(), it.StartI().String()
+	seen := make([]uint64, n/64+1)
+	limit := n + 2
+	for o.Count < limit {
+		x := it.Int().Int64()
+		if len(o.Outs) < 16 {
+			o.Outs = append(o.Outs, x)
+		}
+		o.Count++
+		if x < 1 || x > n {
+			if o.OOR == "" {
+				o.OOR = it.Int().String()
+			}
+		} else if seen[x/64]&(1<<uint(x%64)) != 0 {
+			if o.Dup == "" {
+				o.Dup = it.Int().String()
+			}
+		} else {
+			seen[x/64] |= 1 << uint(x%64)
+		}
+		if o.Count == int64(before) {
+			for j := 0; j < others; j++ {
+				m := n - int64(j%7)
+				if j%5 == 4 {
+					m = n/2 + 1
+				}
+				if m < 1 {
+					m = 1
+				}
+				if ot, k := newIter(m); k == "" {
+					ot.Next()
+					ot.Next()
+				}
+			}
+		}
+		if !it.Next() {
+			o.Complete = true
+			break
+		}
+	}
+	return o
+}
+
 func runCase(n, seed int64, k int, class string) obs {
 	// replay the draws the code will make on a private source with the same seed
 	priv := rand.New(rand.NewSource(seed))
@@ -122,11 +176,30 @@ func main() {
 	one := flag.String("replay", "", "replay one case: n,seed,k")
 	walk := flag.String("walk", "", "walk one whole range with a bitmap: n,seed,limit")
 	sweep := flag.String("sweep", "", "exhaustive small sizes: N,S = every n in 1..N under seeds 1..S, walked completely with a bitmap")
+	inter := flag.Bool("interleaved", false, "walks suspended while more than a thousand further iterators of the same and of other table rows are constructed, then continued to their end")
+	inter1 := flag.String("interleaved1", "", "replay one interleaved walk: n,seed,others")
 	jump := flag.Bool("jump", false, "for sizes at both ends of every table row and around 2^32: from the predecessor of n, n-1, 1 and a middle element one step must yield that element")
 	sparse := flag.String("sparse", "", "sparse sizes: LIMIT,S = for every table row with P <= LIMIT the sizes just above the previous row's prime (about half of the group is out of range), walked completely with a bitmap under S seeds")
 	flag.Parse()
 	w := hlib.NewOut(*out)
 	defer w.Close()
+	if *inter1 != "" {
+		var n, sd int64
+		var others int
+		if _, err := fmtSscan(*inter1, &n, &sd, &others); err != nil {
+			panic(err)
+		}
+		w.Put(interleavedCase(n, sd, int(n/3)+1, others))
+		return
+	}
+	if *inter {
+		for i, n := range []int64{1100, 300, 5000, 40000, 70000, 17, 2000} {
+			for y := int64(0); y < 2; y++ {
+				w.Put(interleavedCase(n, *seed+int64(i)*101+y, int(n/3)+1, 1100+i*500))
+			}
+		}
+		return
+	}
 	if *jump {
 		// every element of 1..n is yielded: move the iterator to the predecessor (on its own cycle) of chosen targets
 		// -- n itself, n-1, 1, and a middle element -- and take one step; also beyond the end: the successor of an
